@@ -71,6 +71,14 @@ void merge_union_cb(void *clos, const uint8_t *key, size_t len_key, const uint8_
 	memcpy(*out, r.data(), r.size());
 	*lout = r.size();
 }
+// stateless, and failing: refuses to merge two values that both begin with 'F' (returns without producing a value),
+// otherwise folds like merge_union_cb.  For callbacks that run on pool workers.
+void merge_failF_cb(void *clos, const uint8_t *key, size_t len_key, const uint8_t *v0, size_t l0,
+		    const uint8_t *v1, size_t l1, uint8_t **out, size_t *lout)
+{
+	if (l0 > 0 && l1 > 0 && v0[0] == 'F' && v1[0] == 'F') return;
+	merge_union_cb(clos, key, len_key, v0, l0, v1, l1, out, lout);
+}
 int dupsort_bytes_cb(void *, const uint8_t *, size_t, const uint8_t *v0, size_t l0, const uint8_t *v1, size_t l1)
 {
 	return mfmt::cmp(Bytes((const char *)v0, l0), Bytes((const char *)v1, l1));
@@ -183,7 +191,11 @@ static Plan gen_merge(const std::string &prop, const std::string &tier, uint64_t
 	// C05 without a merge function: "one table holding the merged content" is only defined when no key occurs twice,
 	// so those plans use sources with disjoint key sets
 	bool c05_nomerge = prop == "C05" && mode >= 6;
-	if (c05_nomerge) shape = 2;
+	// ... or, in half of them, any key sets (and sources that repeat keys): then the merged content is a multiset and the
+	// history is checked run by run - after seek(k) every entry with key >= k comes out, all copies of each key
+	bool c05_multiset = c05_nomerge && r.chance(1, 2);
+	if (c05_nomerge && !c05_multiset) shape = 2;
+	if (c05_multiset) p.seti("mhist", 1);
 	p.seti("mode", mode < 6 ? (r.chance(1, 6) ? 3 : 0) : mode < 8 ? 1 : 2);	// 0 merge, 1 none, 2 none + dupsort, 3 merge + dupsort
 	int mfunc = r.chance(3, 5) ? MF_UNION : 1 + (int)r.below(MF_N - 1);
 	p.seti("mfunc", mfunc);
@@ -204,7 +216,7 @@ static Plan gen_merge(const std::string &prop, const std::string &tier, uint64_t
 				if (mfunc == MF_UNION) p.op("ent", { std::to_string(s), spec_of(pool[i]), std::to_string(r.chance(1, 20) ? 1 + r.below(300) : 0) });
 				else { Bytes v = "val"; size_t n = r.below(12); for (size_t q = 0; q < n; q++) v.push_back((char)('a' + r.below(3))); if (r.chance(1, 4)) v = kg.value(100); p.op("ent", { std::to_string(s), spec_of(pool[i]), "0", spec_of(v) }); }
 				// a user-defined source may hold the same key more than once (as a merger without merge function does)
-				if (user && !c05_nomerge && r.chance(1, 8)) {
+				if (user && (!c05_nomerge || c05_multiset) && r.chance(1, 8)) {
 					size_t nd = 1 + r.below(3);
 					for (size_t d = 0; d < nd; d++) {
 						Bytes v = "dup"; size_t n = r.below(6); for (size_t q = 0; q < n; q++) v.push_back((char)('a' + r.below(3)));
@@ -229,7 +241,22 @@ static Plan gen_merge(const std::string &prop, const std::string &tier, uint64_t
 		p.seti("observe", 0);
 		p.seti("mergefail", 0);
 		int nops = 5 + (int)r.below(70);
-		if (r.chance(1, tier == "thorough" ? 25 : 150)) { p.op("sweepseek", { std::to_string(r.chance(1, 2) ? 0 : r.below(4)), "30" }); nops = 0; }
+		if (c05_multiset) {
+			// one iterator over the whole merger: next n / seek target
+			for (int i = 0; i < nops; i++) {
+				char t[48];
+				if (r.chance(3, 5)) p.op("mnext", { std::to_string(r.chance(2, 3) ? 1 : 1 + r.below(6)) });
+				else {
+					uint64_t d = r.below(100);
+					if (d < 50) snprintf(t, sizeof t, "@cur:%d", r.chance(4, 5) ? 0 : (int)r.below(8));
+					else if (d < 56) snprintf(t, sizeof t, "@end");
+					else snprintf(t, sizeof t, "@k%d:%d", (int)r.below(400), r.chance(1, 2) ? 0 : (int)r.below(8));
+					p.op("mseek", { t });
+				}
+			}
+			nops = 0;
+		}
+		if (nops && r.chance(1, tier == "thorough" ? 25 : 150)) { p.op("sweepseek", { std::to_string(r.chance(1, 2) ? 0 : r.below(4)), "30" }); nops = 0; }
 		bool open[4] = { false, false, false, false };
 		auto target = [&](bool cur) {
 			char t[48];
@@ -388,7 +415,74 @@ static RunResult exec_merge(const Plan &p)
 	}
 	const mtbl_source *msrc = mtbl_merger_source(m);
 
-	if (p.prop == "C05" && mode != 0 && w.shared_keys > 0) {
+	if (p.prop == "C05" && mode != 0 && p.geti("mhist", 0)) {
+		// ---- no merge function, keys may repeat: a next/seek history on one iterator, judged per run of equal keys
+		res.probes["merger-multiset-history"]++;
+		std::vector<std::pair<Bytes, Bytes>> all = w.all;
+		std::stable_sort(all.begin(), all.end(), [](const std::pair<Bytes, Bytes> &a, const std::pair<Bytes, Bytes> &b) {
+			int c = mfmt::cmp(a.first, b.first);
+			return c ? c < 0 : mfmt::cmp(a.second, b.second) < 0;
+		});
+		auto lower = [&](const Bytes &k) { size_t lo = 0, hi = all.size(); while (lo < hi) { size_t mid = (lo + hi) / 2; if (mfmt::cmp(all[mid].first, k) < 0) lo = mid + 1; else hi = mid; } return lo; };
+		Client cl(res, w.merged, msrc, nullptr, "MERGER-");	// for target resolution only
+		mtbl_iter *it = mtbl_source_iter(msrc);
+		size_t expect = 0;		// index in `all` of the first entry of the run that must come next
+		bool in_run = false, ended = false, any_seek = false, seek_in_run = false;
+		Bytes run_key, last;
+		std::vector<Bytes> got;		// values of the current run
+		auto close_run = [&](const char *when) {
+			if (!in_run) return;
+			std::vector<Bytes> want;
+			for (size_t i = expect; i < all.size() && all[i].first == run_key; i++) want.push_back(all[i].second);
+			std::vector<Bytes> g = got;
+			std::sort(g.begin(), g.end(), bytes_less);
+			if (g != want) res.fail("MODEL", "MERGER-MULTI-run-incomplete", std::string(when) + ": key " + short_repr(run_key) + " came out " + std::to_string(g.size()) + " times, the sources hold it " + std::to_string(want.size()) + " times");
+			expect += want.size();
+			in_run = false; got.clear();
+		};
+		size_t opi = 0;
+		for (auto &o : p.ops) {
+			opi++;
+			if (res.viol) break;
+			if (o.name == "mseek") {
+				ClientSlot tmp; tmp.cur = last;
+				Bytes t = cl.resolve(o.arg(0), &tmp);
+				if (in_run) seek_in_run = true;
+				in_run = false; got.clear(); ended = false;	// an interrupted run is not judged
+				if (mtbl_iter_seek(it, (const uint8_t *)t.data(), t.size()) != mtbl_res_success) { res.fail("MODEL", "MERGER-MULTI-seek-failed", "seek(" + short_repr(t) + ") failed"); break; }
+				expect = lower(t);
+				any_seek = true;
+				res.ev.b(t);
+			} else if (o.name == "mnext") {
+				for (long long n = o.argi(0, 1); n > 0 && !res.viol; n--) {
+					const uint8_t *k, *v; size_t kl, vl;
+					mtbl_res r = mtbl_iter_next(it, &k, &kl, &v, &vl);
+					res.ev.u(r == mtbl_res_success);
+					if (r != mtbl_res_success) {
+						close_run("at the end");
+						if (!res.viol && expect < all.size()) res.fail("MODEL", "MERGER-MULTI-next-missing", "next failed, the model expects key " + short_repr(all[expect].first));
+						ended = true;
+						break;
+					}
+					Bytes gk((const char *)k, kl), gv((const char *)v, vl);
+					res.ev.b(gk);
+					if (ended) { res.fail("MODEL", "MERGER-MULTI-not-sticky", "next returned " + short_repr(gk) + " after it had failed"); break; }
+					if (in_run && gk != run_key) close_run("when the next key appeared");
+					if (res.viol) break;
+					if (!in_run) {
+						if (expect >= all.size() || gk != all[expect].first) { res.fail("MODEL", "MERGER-MULTI-wrongkey", "next returned key " + short_repr(gk) + ", the model expects " + (expect < all.size() ? short_repr(all[expect].first) : std::string("the end"))); break; }
+						in_run = true; run_key = gk;
+					}
+					if (mode == 2 && !got.empty() && mfmt::cmp(got.back(), gv) > 0) { res.fail("MODEL", "MERGER-MULTI-dupsort-order", "copies of key " + short_repr(gk) + " are not in dupsort order"); break; }
+					got.push_back(gv);
+					last = gk;
+				}
+			}
+		}
+		mtbl_iter_destroy(&it);
+		if (seek_in_run) res.probes["seek-inside-a-run-of-equal-keys"]++;
+		res.nontrivial = w.shared_keys >= 1 && nsrc >= 2 && any_seek;
+	} else if (p.prop == "C05" && mode != 0 && w.shared_keys > 0) {
 		res.unjudged["c05-no-merge-function-with-repeated-keys"]++;	// not generated; a hand-edited plan
 	} else if (p.prop == "C05") {
 		if (mode != 0) res.probes["merger-without-merge-function"]++;
